@@ -377,7 +377,7 @@ class SetWithKnownFields(Validator):
         unexpected = _evaluate_dict_subset_policy(element, set_with)
         if not unexpected:
             return True
-        n_unex, unex = len(unexpected), ", ".join(sorted(unexpected))
+        n_unex, unex = len(unexpected), ", ".join(sorted(str(k) for k in unexpected))
         return self.note_error(
             element, state, "unexpected", unexpected=unex, n_unexpected=n_unex
         )
@@ -480,8 +480,8 @@ class SetWithAllFields(Validator):
         else:
             message = "unexpected"
 
-        n_miss, miss = len(missing), ", ".join(sorted(missing))
-        n_unex, unex = len(unexpected), ", ".join(sorted(unexpected))
+        n_miss, miss = len(missing), ", ".join(sorted(str(k) for k in missing))
+        n_unex, unex = len(unexpected), ", ".join(sorted(str(k) for k in unexpected))
 
         return self.note_error(
             element,
